@@ -203,16 +203,14 @@ func (m *Monitors) c12(st *Step) []Finding {
 				bad("part-kick-leak", allowed)
 			}
 		case cmd == "QUIT":
-			subj := sessionByNick(B, l.PName)
-			if subj == nil {
-				// a services link that owns a nickname is announced under its server name
-				for i := range B.Sessions {
-					if B.Sessions[i].Server && B.Sessions[i].PrefixName == l.PName {
-						subj = &B.Sessions[i]
-					}
+			allowed := union(lk, sharing(B, sessionByNick(B, l.PName)))
+			// a services link that owns a nickname is announced under its server
+			// name (several links may carry the same name)
+			for i := range B.Sessions {
+				if B.Sessions[i].Server && B.Sessions[i].PrefixName == l.PName {
+					allowed = union(allowed, sharing(B, &B.Sessions[i]))
 				}
 			}
-			allowed := union(lk, sharing(B, subj))
 			if !subset(to, allowed) {
 				bad("quit-leak", allowed)
 			}
